@@ -68,6 +68,9 @@ package rp
 //@        && joseVerified(jws, callres("oidc.FindMatchingKey", 0), bstr(result0)) && usableKey(callres("oidc.FindMatchingKey", 0), "sig", alg)
 //@   defines accepted: result0 != nil ==> keyAccepted(jws, alg, bstr(result0))
 //@   ensures no-error-with-payload: result0 != nil ==> result1 == nil
+//@   ensures miss-goes-remote: called("oidc.FindMatchingKey") && callres("oidc.FindMatchingKey", 1) != nil ==> result0 == nil && result1 == nil
+//@   ensures empty-cache-goes-remote: !called("oidc.FindMatchingKey") ==> result0 == nil && result1 == nil
+//@   ensures error-only-for-exact-match: result1 != nil ==> called("rp.remoteKeySet.exactMatch") && callres("rp.remoteKeySet.exactMatch", 0)
 //@ func rp.remoteKeySet.verifySignatureRemote
 //@   requires valid(r) && valid(jws)
 //@   ensures with-selected-key: err == nil ==> callres("oidc.FindMatchingKey", 1) == nil
@@ -77,6 +80,9 @@ package rp
 // A token without alg header is checked against the configured default algorithm.
 //@ func rp.remoteKeySet.VerifySignature
 //@   requires valid(r) && valid(jws)
+//@   ensures at-most-one-refresh: called("rp.remoteKeySet.verifySignatureRemote#2") == false
+//@   ensures cached-error-is-final: called("rp.remoteKeySet.verifySignatureRemote") ==> callres("rp.remoteKeySet.verifySignatureCached", 0) == nil && callres("rp.remoteKeySet.verifySignatureCached", 1) == nil
+//@   ensures miss-consults-provider: callres("rp.remoteKeySet.verifySignatureCached", 0) == nil && callres("rp.remoteKeySet.verifySignatureCached", 1) == nil ==> called("rp.remoteKeySet.verifySignatureRemote")
 //@   ensures accepted: err == nil ==> keyAccepted(jws, ite(callres("oidc.GetKeyIDAndAlg", 1) == "", old(r.defaultAlg), callres("oidc.GetKeyIDAndAlg", 1)), bstr(result0))
 //@   ensures fail-closed: err != nil ==> result0 == nil
 
@@ -119,3 +125,28 @@ package rp
 //@        && callarg("rp.WithCodeChallenge", 0) == callres("rp.GenerateAndStoreCodeChallenge", 0)
 //@ loop rp.AuthURL#1
 //@   invariant own-storage: fresh(authOpts)
+
+// ---- C13: remote key set, sequential part (thread schedules are not decided) ----
+
+// detachedCtx(ctx) (engine predicate): ctx cannot be cancelled by a caller - established by
+// context.WithoutCancel / context.Background.
+// The download shared by all waiters runs under a detached context, publishes its result exactly
+// once, replaces the cache only on success and always clears the in-flight marker.
+//@ func rp.remoteKeySet.updateKeys
+//@   requires valid(r) && valid(r.inflight)
+//@   requires detached: detachedCtx(ctx)
+//@   ensures cache-kept-on-failure: callres("rp.remoteKeySet.fetchRemoteKeys", 1) != nil ==> r.cachedKeys == old(r.cachedKeys)
+//@   ensures cache-replaced-on-success: callres("rp.remoteKeySet.fetchRemoteKeys", 1) == nil ==> r.cachedKeys == callres("rp.remoteKeySet.fetchRemoteKeys", 0)
+//@   ensures inflight-cleared: r.inflight == nil
+//@   ensures result-published: callarg("rp.inflight.done", 0) == old(r.inflight) && callarg("rp.inflight.done", 1) == callres("rp.remoteKeySet.fetchRemoteKeys", 0)
+//@        && callarg("rp.inflight.done", 2) == callres("rp.remoteKeySet.fetchRemoteKeys", 1)
+
+//@ func rp.remoteKeySet.exactMatch
+//@   requires valid(r)
+//@   modifies nothing
+//@   ensures table: result <==> ite(jwkID == "" && jwsID == "", r.skipRemoteCheck, jwkID == jwsID)
+
+// A cache miss of any kind (no key, several candidates, or a failed verification with a key that is
+// not an exact kid match) is not an answer: the caller then consults the provider.
+//@ func rp.remoteKeySet.keysFromRemote
+//@   requires valid(r)
